@@ -216,9 +216,16 @@ func (s *Session) resume(o *Config) bool {
 		H:      &s.SMState.Inbound,
 	}
 	data, err := xml.Marshal(rsm)
-
-	_, err = s.transport.Write(data)
 	if err != nil {
+		s.err = err
+		return false
+	}
+
+	// A request that could not be written has not been refused: the negotiation ends here, like at any other
+	// step whose write fails, instead of going on to bind a new session on the same stream. The state held is
+	// kept, the session may still be resumed on the next connection.
+	if _, err = s.transport.Write(data); err != nil {
+		s.err = err
 		return false
 	}
 	var packet stanza.Packet
